@@ -10,6 +10,7 @@ Correspondence sections (every call goes to the *real* WeasyPrint function, in-p
   width               block.block_level_width(.without_min_max)       (8 auto patterns x ltr/rtl x box/tuple cb)
   width-minmax        block.block_level_width                         (decorated: handle_min_max_width)
   page                page.page_width_or_height, page_width, page_height (handle_min_max_height)
+  decoration          boxes.ParentBox.remove_decoration / InlineBox.remove_decoration / _reset_spacing on real boxes
   wrappers            min_max.handle_min_max_width / _height around a function that does nothing, around one that
                       moves the box, and on a box without position_x
   stacking            one-page block/paragraph documents biased to margin collapsing, laid out by the real pipeline,
@@ -373,6 +374,8 @@ EXPECTED_TAGS = {
     'wrappers': ['idw', 'idh', 'shw', 'idwn', 'shw:pass1', 'shw:pass2', 'shw:pass3'],
     'shrink-to-fit': ['float', 'inline-block', 'w-auto', 'w-fixed', 'max', 'no-max', 'min', 'no-min'],
     'translate': ['ignore', 'all', 'zero', 'move'],
+    'decoration': ['parent', 'inline', 'reset', 'clone', 'slice', 'ltr', 'rtl', 'calls1', 'calls2', 'calls3',
+                   'presides'],
     'radii': ['removed', 'kept', 'px', 'pct', 'unit'],
     'resolve-collapse': ['collapse', 'separate', 'preset0', 'preset4'],
     'documents': ['ltr', 'rtl'],
@@ -610,6 +613,69 @@ def clause_edges(vals, out):
     for name, g, wv in zip(EDGE_FUNCS, got, want):
         if g != wv:
             return f'{name}() = {g}, the box model gives {wv}'
+    return None
+
+
+SIDES = ('top', 'right', 'bottom', 'left')
+
+
+def run_deco(kind, clone, ltr, vals, sides, calls):
+    """`ParentBox.remove_decoration` (kind 'parent', on a real BlockBox), `InlineBox.remove_decoration` (kind
+    'inline', on a real InlineBox) or `_reset_spacing` (kind 'reset', calls = [side]) on a box with the given used
+    values and `remove_decoration_sides`."""
+    boxes = mods()[1]
+    style = {'box_decoration_break': 'clone' if clone else 'slice', 'direction': 'ltr' if ltr else 'rtl'}
+
+    def call():
+        box = (boxes.InlineBox('span', style, None, []) if kind == 'inline' else
+               boxes.BlockBox('div', style, None, []))
+        for k, v in zip(EDGE_KEYS, vals):
+            setattr(box, k, v)
+        box.remove_decoration_sides = set(sides)
+        for c in calls:
+            if kind == 'reset':
+                box._reset_spacing(c)
+            else:
+                box.remove_decoration(c[0], c[1])
+        return (' '.join(atom(getattr(box, k)) for k in EDGE_KEYS) + ' |' +
+                ''.join(' ' + s for s in SIDES if s in box.remove_decoration_sides))
+    return docs.outcome(call)
+
+
+def deco_line(kind, clone, ltr, vals, sides, calls):
+    if kind == 'reset':
+        return sx.line('reset', calls[0], vals, list(sides))
+    if kind == 'inline':
+        return sx.line('deco', 'inline', clone, ltr, vals, list(sides), [list(c) for c in calls])
+    return sx.line('deco', 'parent', clone, vals, list(sides), [list(c) for c in calls])
+
+
+def clause_deco(kind, clone, ltr, vals, sides, calls, out):
+    """(a)(b)(g) for the fragments of a split box (css-break-3 box-decoration-break: slice / clone): the sides where
+    the box was cut have no margin, padding and border and are recorded; everything else — position, content size,
+    the other sides — is what it was; `clone` keeps all."""
+    if out.startswith('err:'):
+        return f'remove_decoration raised {out}'
+    left, _, right = out.partition(' |')
+    got = dict(zip(EDGE_KEYS, (dec(v) for v in left.split())))
+    got_sides = set(right.split())
+    cut = set()
+    for c in calls:
+        if kind == 'reset':
+            cut.add(c)
+        elif not clone:
+            start, end = (('top', 'bottom') if kind == 'parent' else
+                          ('left', 'right') if ltr else ('right', 'left'))
+            cut |= ({start} if c[0] else set()) | ({end} if c[1] else set())
+    if got_sides != set(sides) | cut:
+        return (f'{kind}: remove_decoration_sides is {sorted(got_sides)} after the calls {calls} '
+                f'(clone={clone}, ltr={ltr}), expected {sorted(set(sides) | cut)}')
+    for k, v in zip(EDGE_KEYS, vals):
+        side = k.split('_')[1] if k.split('_')[0] in ('margin', 'padding', 'border') else None
+        want = 0 if side in cut else v
+        if got[k] != want:
+            return (f'{kind}: {k} is {got[k]} after the calls {calls} (clone={clone}, ltr={ltr}, cut sides '
+                    f'{sorted(cut)}), expected {want}')
     return None
 
 
@@ -1637,7 +1703,7 @@ class C05(PropCheck):
     id = 'C05'
     extractors = ()
     modules = ('WpModel.Props.C05', 'WpModel.Props.C05Pm', 'WpModel.Props.C05Check', 'WpModel.Props.C05Refine',
-               'WpModel.Props.C05Shrink', 'WpModel.Props.C05Tree', 'WpModel.Props.C05Shift', 'WpModel.Props.C05Meta', 'WpModel.Witness.C05', 'WpModel.Witness.C05Pm', 'WpModel.Witness.C05Shrink')
+               'WpModel.Props.C05Shrink', 'WpModel.Props.C05Tree', 'WpModel.Props.C05Shift', 'WpModel.Props.C05Meta', 'WpModel.Props.C05Deco', 'WpModel.Witness.C05', 'WpModel.Witness.C05Pm', 'WpModel.Witness.C05Shrink')
     trusted_base = (
         'modelled, not verified: collapse_margin, percentage, resolve_percentages, adjust_box_sizing, '
         'handle_min_max_width/height, block_level_width, page_width_or_height are hand transcriptions '
@@ -1894,6 +1960,27 @@ class C05(PropCheck):
             vals = [rat(rng) for _ in EDGE_KEYS]
             sec.add(sx.line('edges', vals), run_edges(vals), meta={'vals': [atom(v) for v in vals]})
 
+        sec = run.section('decoration', 'ParentBox.remove_decoration on a real BlockBox, InlineBox.remove_decoration on a '
+                          'real InlineBox (ltr / rtl), _reset_spacing: 1-3 successive calls with every (start, end), '
+                          'box-decoration-break slice / clone, sides already removed: the sixteen used values and '
+                          'remove_decoration_sides afterwards; non-trivial = a side is cut')
+        for i in range(run.n(1500, 20000)):
+            vals = [rat(rng) for _ in EDGE_KEYS]
+            sides = [s for s in SIDES if rng.random() < .15]
+            clone, ltr = rng.random() < .25, rng.random() < .5
+            kind = rng.choice(['parent', 'parent', 'inline', 'inline', 'reset'])
+            if kind == 'reset':
+                calls = [rng.choice(SIDES)]
+            else:
+                calls = [(rng.random() < .5, rng.random() < .5) for _ in range(rng.choice([1, 1, 2, 3]))]
+            cutting = kind == 'reset' or (not clone and any(c[0] or c[1] for c in calls))
+            sec.add(deco_line(kind, clone, ltr, vals, sides, calls), run_deco(kind, clone, ltr, vals, sides, calls),
+                    meta={'kind': kind, 'clone': clone, 'ltr': ltr, 'vals': [atom(v) for v in vals], 'sides': sides,
+                          'calls': [c if kind == 'reset' else list(c) for c in calls]},
+                    nontrivial=cutting,
+                    tags=[kind, 'clone' if clone else 'slice', 'ltr' if ltr else 'rtl', f'calls{len(calls)}'] +
+                    (['presides'] if sides else []))
+
         sec = run.section('translate', 'Box.translate(dx, dy, ignore_floats) on real trees of BlockBoxes (depth <= 3, '
                           'floated children): every position afterwards; non-trivial = a child exists')
         for i in range(run.n(1500, 20000)):
@@ -2097,6 +2184,9 @@ class C05(PropCheck):
         if section == 'stacking':
             from harness import pm_corr
             return clause_stacking(pm_corr.doc_from_json(meta['doc']), impl)
+        if section == 'decoration':
+            return clause_deco(meta['kind'], meta['clone'], meta['ltr'], [F(v) for v in meta['vals']], meta['sides'],
+                               [c if meta['kind'] == 'reset' else tuple(c) for c in meta['calls']], impl)
         if section == 'box-geometry':
             return clause_edges([F(v) for v in meta['vals']], impl)
         if section == 'translate':
@@ -2207,7 +2297,8 @@ class C05(PropCheck):
                 'zero-percent-height-auto-cb': finding_zero_percent,
                 'first-line-overflow-margin-hack': finding_first_line_hack,
                 'table-row-group-negative-height': finding_table_row_group,
-                'empty-fragment-below-page-bottom': finding_empty_fragment}
+                'empty-fragment-below-page-bottom': finding_empty_fragment,
+                'empty-first-child-above-parent': finding_empty_first_child}
 
     def replay(self, data):
         inp = data.get('input', {})
@@ -2312,6 +2403,11 @@ class C05(PropCheck):
             from harness import pm_corr
             doc = pm_corr.doc_from_json(meta['doc'])
             return clause_stacking(doc, pm_corr.real_line(doc))
+        if section == 'decoration':
+            vals = [F(v) for v in meta['vals']]
+            calls = [c if meta['kind'] == 'reset' else tuple(c) for c in meta['calls']]
+            return clause_deco(meta['kind'], meta['clone'], meta['ltr'], vals, meta['sides'], calls,
+                               run_deco(meta['kind'], meta['clone'], meta['ltr'], vals, meta['sides'], calls))
         if section == 'box-geometry':
             vals = [F(v) for v in meta['vals']]
             return clause_edges(vals, run_edges(vals))
@@ -2421,6 +2517,24 @@ def finding_empty_fragment():
                            'line-height:12px}p{margin:0}</style><p style="height:50px;margin-bottom:13px">a</p>'
                            '<div id=d><div style="float:left">f</div><p>b</p></div>')
     return any(box.height < 0 for box in _blocks(document.pages[0]))
+
+
+def finding_empty_first_child():
+    """`<body>` (margin 0) holding an empty `<div>` then a div with `margin-top: 3px`: the 3px collapse through the
+    empty div into the margin of <body>, whose border box moves down to y = 3; the empty div stays at y = 0, above
+    the content box of its parent (CSS 2.1 8.3.1: its top border edge is the parent's)."""
+    docs.quiet()
+    document = docs.render('<style>@page{size:100px;margin:0}html,body{margin:0}</style>'
+                           '<div id=e></div><div id=s style="margin-top:3px;height:10px"></div>')
+    body = empty_div = None
+    for box in document.pages[0]._page_box.descendants():
+        if getattr(box, 'element', None) is not None:
+            if box.element_tag == 'body':
+                body = box
+            elif box.element.get('id') == 'e':
+                empty_div = box
+    return body is not None and empty_div is not None and \
+        empty_div.position_y + empty_div.margin_top < body.content_box_y()
 
 
 def finding_table_row_group():
